@@ -368,7 +368,17 @@ def project_default(ob):
     """per-subscriber event sequences with action indices, outcome, probes, snapshots"""
     if ob["out"] != "ok":
         return {"out": ob["out"]}
-    return {"out": "ok", "logs": user_logs(ob, True, canon=True), "tap": ob["tap"], "probes": ob["probes"], "snaps": ob["snaps"]}
+    logs = user_logs(ob, True, canon=True)
+    tap = ob["tap"]
+    if len([u for u in logs if "/" not in u]) >= 2:
+        # several subscribers: the order in which a Subject calls its observers within ONE broadcast is the order of a hash map,
+        # so the global side-effect log of tap is compared as a multiset (each subscriber's own log keeps its order)
+        tap = sorted(tap, key=sx.dumps)
+        # ... and the global log length seen by a probe is not compared
+        probes = [list(p[:4]) + ["-"] + list(p[5:]) for p in ob["probes"]]
+    else:
+        probes = ob["probes"]
+    return {"out": "ok", "logs": logs, "tap": tap, "probes": probes, "snaps": ob["snaps"]}
 
 
 # ---------------------------------------------------------------- evidence / verdict
